@@ -294,6 +294,12 @@ func c17Run(e *Env, p *c17Plan, subs []simnet.Faults) {
 			return
 		}
 		e.Ob(1)
+		if ne, ok := rec.readErr.(net.Error); ok && ne.Timeout() && c.NoOwnDeadline {
+			// the connection is handed over without deadlines: a read of the hijack handler can
+			// only time out on a deadline the handler set itself
+			e.Violation("tail/stale-deadline", "conn %d: a read of the hijack handler timed out (%v) after %d of %d bytes although the handler set no deadline: the connection was handed over with the server's read deadline still armed", ci, rec.readErr, len(rec.got), len(tails[ci]))
+			return
+		}
 		if !bytes.Equal(rec.got, tails[ci]) && ex.WriteErr == nil && rec.readErr == nil {
 			e.Violation("tail/"+cfgName, "conn %d: the hijack handler read %d bytes, the client sent %d after the hijacking request (first difference at %d)", ci, len(rec.got), len(tails[ci]), firstDiff(rec.got, tails[ci]))
 			return
